@@ -55,15 +55,16 @@ Definition mem_fst (x : N) (l : list val) : bool := existsb (fun v => (fst v =? 
 (* an action object: InstantaneousAction (single timing key 0) or DurativeAction (keys = timings).
    a_static = everything clone() copies and no modelled operation changes (class, name, parameters, preconditions /
    conditions, duration); a_sim = fluents written by the simulated effect at each timing;
-   a_effs / a_asg / a_incdec = _effects / _fluents_assigned / _fluents_inc_dec *)
+   a_effs / a_asg / a_incdec = _effects / _fluents_assigned / _fluents_inc_dec; a_ceffs = _continuous_effects *)
 Record astate := {
   a_static : N;
   a_sim : list (N * list N);
   a_effs : list (N * list val);
   a_asg : list (N * list (N * N));
-  a_incdec : list (N * list val)
+  a_incdec : list (N * list val);
+  a_ceffs : list (N * list val)        (* DurativeAction._continuous_effects: interval -> list of effects *)
 }.
-Definition dact : astate := {| a_static := 0; a_sim := []; a_effs := []; a_asg := []; a_incdec := [] |}.
+Definition dact : astate := {| a_static := 0; a_sim := []; a_effs := []; a_asg := []; a_incdec := []; a_ceffs := [] |}.
 
 Inductive cell :=
 | CList (l : list val)              (* list or set of immutable values *)
@@ -136,6 +137,7 @@ Inductive opbody :=
 | OMetric (m : N)
 | OSetInit (f v : N)
 | OActEffect (name : N) (t : N) (e : eff)          (* problem.action(name).add_effect & co; t = 0 for instantaneous *)
+| OActContEffect (name : N) (iv : N) (e : N)       (* problem.action(name).add_increase/decrease_continuous_effect *)
 | OSetScalar (i : nat) (v : N).                    (* problem.epsilon / discrete_time / self_overlapping = v *)
 
 (* o_pre = Some e: the call raises e during argument validation, before reading or writing the problem *)
@@ -251,8 +253,18 @@ Definition step_body (s : pstate) (b : opbody) : pstate * outcome :=
       | Some c =>
           let a := act c in
           let '((effs, asg, incdec), accepted) := tstore_add (aget t [] (a_sim a)) (a_effs a, a_asg a, a_incdec a) t e in
-          let a' := {| a_static := a_static a; a_sim := a_sim a; a_effs := effs; a_asg := asg; a_incdec := incdec |} in
+          let a' := {| a_static := a_static a; a_sim := a_sim a; a_effs := effs; a_asg := asg; a_incdec := incdec;
+                       a_ceffs := a_ceffs a |} in
           (set_nest s N_ACTIONS (aset name (CAct a') (nest s N_ACTIONS)), if accepted then Ok else Fail E_CONFLICT)
+      end
+  | OActContEffect name iv e =>                  (* DurativeAction._add_continuous_effect_instance: setdefault + append *)
+      match alookup name (nest s N_ACTIONS) with
+      | None => (s, Fail E_VALUE)
+      | Some c =>
+          let a := act c in
+          let a' := {| a_static := a_static a; a_sim := a_sim a; a_effs := a_effs a; a_asg := a_asg a;
+                       a_incdec := a_incdec a; a_ceffs := aset iv (aget iv [] (a_ceffs a) ++ [(e, 0%N)]) (a_ceffs a) |} in
+          (set_nest s N_ACTIONS (aset name (CAct a') (nest s N_ACTIONS)), Ok)
       end
   | OSetScalar i v => (set_scal s i v, Ok)
   end.
@@ -294,7 +306,8 @@ Section Eq.
     Nat.eqb (length a) (length b) && forallb cmp a && forallb cmp b.
   (* InstantaneousAction.__eq__ / DurativeAction.__eq__ *)
   Definition act_eqb (a b : astate) : bool :=
-    (a_static a =? a_static b)%N && keyed_sets_eqb (fun l => l) (a_effs a) (a_effs b).
+    (a_static a =? a_static b)%N && keyed_sets_eqb (fun l => l) (a_effs a) (a_effs b)
+    && keyed_sets_eqb (fun l => l) (a_ceffs a) (a_ceffs b).
   Definition acts_eqb (a b : list (N * cell)) : bool :=
     forallb (fun x => existsb (fun y => act_eqb (act (snd x)) (act (snd y))) b) a
     && forallb (fun x => existsb (fun y => act_eqb (act (snd x)) (act (snd y))) a) b.
